@@ -80,7 +80,8 @@ def ref_bin(op, a, b, b_is_const=False):
     raise KeyError(op)
 
 
-def gen_case(rng, max_ops=8, max_meas=5, allow_pairs=True, allow_corr=True, ops=None):
+def gen_case(rng, max_ops=8, max_meas=5, allow_pairs=True, allow_corr=True, ops=None,
+             allow_repeated=False):
     """one formula DAG; returns a JSON-able dict or None when the draw fell out of domain"""
     n_meas = rng.randint(1, max_meas)
     vals, errs = [], []
@@ -91,8 +92,25 @@ def gen_case(rng, max_ops=8, max_meas=5, allow_pairs=True, allow_corr=True, ops=
             v = EDGE * 2 if v >= 0 else -EDGE * 2
         r = rng.random()
         e = 0.0 if r < 0.12 else abs(v) * 10 ** rng.uniform(-6, -0.7)
+        if vals and rng.random() < 0.15:
+            v = rng.choice(vals)     # two distinct measurements with exactly the same reading
         vals.append(float(v))
         errs.append(float(e))
+    raw = {}
+    if allow_repeated:
+        for i in range(n_meas):
+            if errs[i] > 0 and rng.random() < 0.25:
+                k = rng.randint(2, 6)
+                spread = errs[i] * math.sqrt(k)
+                xs = [vals[i] + rng.gauss(0, 1) * spread for _ in range(k)]
+                raw[str(i)] = {"data": [bits(x) for x in xs],
+                               "selector": rng.choice(["", "", "use_std_for_uncertainty"]),
+                               "ndarray": rng.random() < 0.5}
+                # provisional central value for domain control; the harness reads the real
+                # (value, error) from the library object and feeds those to the model
+                vals[i] = float(sum(xs) / k)
+                if abs(vals[i]) < EDGE:
+                    del raw[str(i)]
     nodes = [["var", i] for i in range(n_meas)]
     ref = list(vals)          # reference value per node
     quantity = [True] * n_meas
@@ -188,8 +206,14 @@ def gen_case(rng, max_ops=8, max_meas=5, allow_pairs=True, allow_corr=True, ops=
                         den = math.sqrt((sum(x * x for x in load[i]) + uniq[i]) *
                                         (sum(x * x for x in load[j]) + uniq[j]))
                         rho.append([i, j, bits(num / den)])
-    return {"nodes": nodes, "root": root, "vals": [bits(v) for v in vals],
-            "errs": [bits(e) for e in errs], "rho": rho, "n_meas": n_meas,
+    # uncertainties revised AFTER the correlations were recorded ("current uncertainties")
+    revise = {}
+    if rho and rng.random() < 0.4:
+        for i in {r[0] for r in rho} | {r[1] for r in rho}:
+            if str(i) not in raw and rng.random() < 0.6:
+                revise[str(i)] = bits(errs[i] * 10 ** rng.uniform(-0.7, 0.7))
+    return {"revise": revise, "nodes": nodes, "root": root, "vals": [bits(v) for v in vals],
+            "errs": [bits(e) for e in errs], "rho": rho, "n_meas": n_meas, "raw": raw,
             "ops": used_ops, "ref_value": bits(ref[root])}
 
 
@@ -235,7 +259,19 @@ def build_impl(q, case):
     vals = [unbits(b) for b in case["vals"]]
     errs = [unbits(b) for b in case["errs"]]
     n_meas = case["n_meas"]
-    meas = [q.Measurement(vals[i], errs[i]) for i in range(n_meas)]
+    meas = []
+    raw = case.get("raw") or {}
+    for i in range(n_meas):
+        r = raw.get(str(i))
+        if r is None:
+            meas.append(q.Measurement(vals[i], errs[i]))
+        else:
+            import numpy as np
+            data = [unbits(b) for b in r["data"]]
+            m = q.Measurement(np.array(data) if r["ndarray"] else data)
+            if r["selector"]:
+                getattr(m, r["selector"])()
+            meas.append(m)
     objs = []
     for n in case["nodes"]:
         t = n[0]
@@ -266,6 +302,8 @@ def build_impl(q, case):
             raise ValueError(t)
     for i, j, r in case["rho"]:
         q.set_correlation(meas[i], meas[j], unbits(r))
+    for i, e in (case.get("revise") or {}).items():
+        meas[int(i)].error = unbits(e)
     return objs, meas
 
 
